@@ -8,6 +8,7 @@ import (
 	"runtime"
 	"runtime/debug"
 	"sort"
+	"strconv"
 	"strings"
 	"syscall"
 	"time"
@@ -53,14 +54,15 @@ type Worker struct {
 	NShards int
 	Seed    int64
 
-	Res      Result
-	seen     map[uint64]struct{}
-	sigCount map[string]int
-	journal  *os.File
-	skip     map[string]string
-	deadline time.Time
-	expired  bool
-	curNT    bool
+	Res       Result
+	seen      map[uint64]struct{}
+	sigCount  map[string]int
+	journal   *os.File
+	nprogress int
+	skip      map[string]string
+	deadline  time.Time
+	expired   bool
+	curNT     bool
 
 	// MaxPerSig bounds how many violations with one signature are kept in full.
 	MaxPerSig int
@@ -259,6 +261,18 @@ func (w *Worker) safe(fn func() *Violation) (v *Violation, perr string) {
 		}
 	}()
 	return fn(), ""
+}
+
+// progressMark prefixes journal entries written between cases.
+const progressMark = "\x00progress:"
+
+// Progress tells the supervisor that the worker is alive while it does long work outside of cases (enumeration, exploration
+// whose single steps are not journalled): the hang detector measures CPU time since the journal last moved.
+func (w *Worker) Progress() {
+	w.nprogress++
+	if w.nprogress%64 == 1 {
+		w.writeJournal(progressMark + strconv.Itoa(w.nprogress))
+	}
 }
 
 func (w *Worker) writeJournal(key string) {
